@@ -29,6 +29,42 @@ def run(rep: Report, repo: Repo):
     chain_orientation(rep, mod, Logic(repo))
     transition_table(rep, repo)
     stil_grammar(rep, mod)
+    grammar.fresh_parser_rule(rep, 'C18.fresh', mod, 'StilTransformer')
+    stateless_queries(rep, mod)
+
+
+def stateless_queries(rep, mod):
+    """tests/tests_loc/responses/_maps are functions of (parsed file, circuit given now): a StilFile object may be asked about
+    several circuits, so nothing derived from one circuit may be kept on the object."""
+    rep.rule('C18.stateless', 'StilFile methods other than __init__ never store into self (no attribute assignment, no item store or mutating call on an attribute of self)')
+    cls = mod.cls('StilFile')
+    MUT = {'append', 'extend', 'update', 'setdefault', 'insert', 'pop', 'clear', 'add', 'remove', 'popitem', '__setitem__', 'sort', 'reverse'}
+    n = 0
+    for st in cls.body:
+        if not isinstance(st, ast.FunctionDef) or st.name == '__init__':
+            continue
+        n += 1
+        bad = []
+        for x in ast.walk(st):
+            if isinstance(x, (ast.Attribute, ast.Subscript)) and isinstance(getattr(x, 'ctx', None), (ast.Store, ast.Del)):
+                b = x
+                while isinstance(b, (ast.Attribute, ast.Subscript)):
+                    b = b.value
+                if isinstance(b, ast.Name) and b.id == 'self':
+                    bad.append(x)
+            elif isinstance(x, ast.Call) and isinstance(x.func, ast.Attribute) and x.func.attr in MUT:
+                b = x.func.value
+                depth = 0
+                while isinstance(b, (ast.Attribute, ast.Subscript)):
+                    b = b.value
+                    depth += 1
+                if isinstance(b, ast.Name) and b.id == 'self' and depth >= 1:
+                    bad.append(x)
+        rep.ob('C18.stateless', f'StilFile.{st.name} does not write to self', not bad)
+        for x in bad:
+            rep.violate('C18.stateless', mod, st, x, f'StilFile.{st.name} stores into the StilFile object ({norm(x)[:70]}): what it derives from the circuit passed now '
+                        f'would be seen by later calls for another circuit', node=x)
+    rep.floor('StilFile query methods', n, 4)
 
 
 def interface_order(rep, repo, mod):
